@@ -3,7 +3,7 @@
 
   Models of  wannierberri/fourier/rvectors.py :
     WignerSeitz.__init__/__call__     → `gridPoints`, `superCells`, `candidates`, `wsClass`, `wsSelect`
-    Rvectors.set_Rvec                 → `numDigits`, `roundDec`, `shiftOf`, `uniqueShifts`, `shiftIndex`, `allSelected`, `iRvecOf`
+    Rvectors.set_Rvec                 → `numDigits`, `roundDec`, `shiftOf`, `uniqueShifts`, `shiftIndex`, `selList`, `selOf`, `iRvecOf`
     get_remapper_XX_from_grid_to_list_R → `weightOf`, `remapOf`
     set_fft_q_to_R                    → `placeK`
     q_to_R / remap_XX_from_grid_to_list_R → `place`, `qToR`      (FFT = parameter `F`)
